@@ -7,6 +7,8 @@ CONSTANTS
   NodeCounts = {1}
   LockKeys = {"owner"}
   Variants = {}
+  MaxReRel = 2
+  Slacks = {1}
   FixedKinds = {"conncap", "maplimit", "maplive", "codequota", "mapquota"}
   WithRelease = TRUE
   Emit = FALSE
